@@ -187,11 +187,22 @@ class ScriptRunner:
             elif kind in ('wmem', 'walt'):
                 from .wrapfs import new_wrapped
                 P[t[1]] = new_wrapped(self, kind, t[3], P[t[4]] if kind == 'walt' else None)
+            elif kind == 'embed':
+                ex.hooks.setdefault('embed_files', {})
+                o = w.guard(lambda: w.F('path::VfsPath::new', [w.F('EmbeddedFS::new', [])]))
+                self.last = o
+                if not o.ok:
+                    return fmt_err(o)
+                P[t[1]] = o.value
             elif kind == 'phys':
                 from .osm import new_phys
                 P[t[1]] = new_phys(self)
             else:
                 raise Unmodelled('script fs kind ' + kind)
+            return 'ok'
+        if op == 'embedfile':
+            ex.hooks.setdefault('embed_files', {})[tuple(unhx(t[1]))] = self.arg_bytes(t[2])
+            self.last = Outcome('ok')
             return 'ok'
         if op in ('arm', 'disarm', 'log'):
             from .wrapfs import ctl_op
@@ -385,7 +396,11 @@ def build_native(profile='dev', quiet=True):
         env['RUSTFLAGS'] = '--cfg manuel_woelker_rust_vfs_verif'
         tdir = tdir + '-hooks'
         env['CARGO_TARGET_DIR'] = tdir
-    cmd = ['cargo', 'build', '--offline'] + (['--release'] if profile == 'release' else [])
+    if profile == 'embed':
+        tdir = tdir + '-embed'
+        env['CARGO_TARGET_DIR'] = tdir
+        os.makedirs('/var/tmp/verif-embed', exist_ok=True)
+    cmd = ['cargo', 'build', '--offline'] + (['--release'] if profile == 'release' else []) + (['--features', 'embed'] if profile == 'embed' else [])
     r = subprocess.run(cmd, cwd=NATIVE_DIR, env=env, capture_output=True, text=True)
     if r.returncode != 0:
         raise RuntimeError('native driver build failed:\n' + r.stderr[-3000:])
